@@ -408,7 +408,13 @@ func converge(r *core.Run, reconfigure bool) {
 	// the history, split over 1-2 mutator tasks
 	src.Begin("history")
 	nops := 1 + src.Intn(12)
+	if r.Tier == "thorough" && src.Bool(1, 3) {
+		nops = 12 + src.Intn(25) // deeper histories in the thorough tier
+	}
 	nmut := 1 + src.Intn(2)
+	if r.Tier == "thorough" && src.Bool(1, 4) {
+		nmut = 3
+	}
 	progs := make([][]mutOp, nmut)
 	for i := 0; i < nops; i++ {
 		op := c.genOp(pl)
